@@ -1,5 +1,5 @@
 //@unit sm2_fn
-//@serves C03 C04 C11 C15
+//@serves C03 C04 C11 C15 C20
 //@source gm-sm2/src/fields/fn64.rs
 //@include-spec sm2_math
 //@section code gm-sm2/src/u256.rs
@@ -221,7 +221,7 @@ fn fn_add(a: &U256, b: &U256) -> (r: U256)
     r
 }
 
-//@props C03 C11 C15
+//@props C03 C11 C15 C20
 fn fn_sub(a: &U256, b: &U256) -> (r: U256)
     requires val4(a@) < N(), val4(b@) < N()
     ensures val4(r@) == (val4(a@) - val4(b@)) % N(),
@@ -242,7 +242,7 @@ fn fn_sub(a: &U256, b: &U256) -> (r: U256)
     r
 }
 
-//@props C03 C11 C15
+//@props C03 C11 C15 C20
 fn fn_to_mont(a: &U256) -> (r: U256)
     requires val4(a@) < N()
     ensures val4(r@) < N(), fne(r@) == val4(a@),
@@ -256,7 +256,7 @@ fn fn_to_mont(a: &U256) -> (r: U256)
     mont_mul(a, &SM2_MOD_N_2E512)
 }
 
-//@props C03 C11 C15
+//@props C03 C11 C15 C20
 fn fn_from_mont(a: &U256) -> (r: U256)
     requires val4(a@) < N()
     ensures val4(r@) == fne(a@),
@@ -269,7 +269,7 @@ fn fn_from_mont(a: &U256) -> (r: U256)
     mont_mul(a, &SM2_ONE)
 }
 
-//@props C03 C11 C15
+//@props C03 C11 C15 C20
 fn fn_mul(a: &U256, b: &U256) -> (r: U256)
     requires val4(a@) < N(), val4(b@) < N()
     ensures val4(r@) == (val4(a@) * val4(b@)) % N(),
@@ -369,7 +369,7 @@ fn mont_mul(a: &U256, b: &U256) -> (res: U256)
     r
 }
 
-//@props C03 C11 C15
+//@props C03 C11 C15 C20
 fn fn_pow(a: &U256, e: &U256) -> (r: U256)
     requires val4(a@) < N()
     ensures val4(r@) == pow_mod(val4(a@), val4(e@) as nat, N()),
